@@ -50,6 +50,8 @@ def _gen_case(rng):
     c = _gen_case0(rng)
     if c['generate_at'] is not None and rng.random() < 0.3:
         c['steps_in_processes'] = True
+    elif c['generate_at'] is not None and rng.random() < 0.3:
+        c['steps_only'] = True
     if c['generate_at'] is not None and c['director'] == 'process' and c['divide_at'] is None \
             and c['splitter_at'] is None and rng.random() < 0.3:
         # the compartment is generated a second time over itself
@@ -75,6 +77,11 @@ def corpus():
         # F53: the steps of the generated compartment are handed over in its `processes` dictionary, with a flow
         {'kind': 'dynflow', 'entry': 'parts', 'initial': ['a'], 'generate_at': 2, 'divide_at': None, 'ticks': 4,
          'x0': 0, 'slow': None, 'director': 'process', 'steps_in_processes': True},
+        # a compartment generated at run time holds steps only (no ordinary process); one of two in the same directive
+        {'kind': 'dynflow', 'entry': 'parts', 'initial': ['a'], 'generate_at': 2, 'divide_at': None, 'ticks': 4,
+         'x0': 0, 'slow': None, 'director': 'process', 'steps_only': True},
+        {'kind': 'dynflow', 'entry': 'composite', 'initial': ['a'], 'generate_at': 1, 'divide_at': None, 'ticks': 4,
+         'x0': 2, 'slow': None, 'director': 'process', 'steps_only': True, 'twin': True},
         # compartment `a` (process, flow steps, two chained legacy derivers) is moved to another store at t=2
         {'kind': 'dynflow', 'entry': 'parts', 'initial': ['a', 'z'], 'generate_at': None, 'divide_at': None, 'ticks': 5,
          'x0': 0, 'slow': None, 'director': 'process', 'move_at': 2},
@@ -254,6 +261,10 @@ def generated(key, case):
     out = [dict(compartment(key, case['x0'] + 100, inner=case.get('inner', False)), key='g')]
     if case.get('twin'):
         out.append(dict(compartment(key, case['x0'] + 200, inner=case.get('inner', False)), key='h'))
+    if case.get('steps_only'):
+        # the last compartment of the directive holds steps and no ordinary process (its x stays where it is)
+        out[-1]['processes'] = {}
+        out[-1]['topology'] = {k: v for k, v in out[-1]['topology'].items() if k != 'grow'}
     if case.get('steps_in_processes'):
         # the steps travel in the `processes` dictionary of the directive (the legacy placement); their flow counts
         for d in out:
@@ -514,7 +525,8 @@ def oracle(case, impl, who=('order', 'values', 'once', 'published', 'alive')):
                     else:
                         continue                 # daughters start from the mother's value: not judged here
                 t0, x0 = born[k]
-                if 'x' in v and v['x'] != x0 + (row['t'] - t0):
+                idle = case.get('steps_only') and k == ('h' if case.get('twin') else 'g')   # holds no process
+                if 'x' in v and v['x'] != x0 + (0 if idle else row['t'] - t0):
                     fails.append(f'simulated-to-now: at t={row["t"]} compartment {k} (created at {t0} with x={x0}) '
                                  f'holds x={v["x"]}: its process adds 1 per time unit and should have been '
                                  f'simulated for {row["t"] - t0}')
